@@ -346,9 +346,13 @@ void qsbr::unregister_thread(std::uint64_t quiescent_states_since_epoch_change,
           take_orphan_list(orphaned_previous_interval_dealloc_requests);
       while (list != nullptr) {
         auto* const next = list->next;
+        UNODB_DETAIL_VERIF_POINT(qsbr_load,
+                                 &orphaned_current_interval_dealloc_requests);
         list->next = orphaned_current_interval_dealloc_requests.load(
             std::memory_order_acquire);
         while (true) {
+          UNODB_DETAIL_VERIF_POINT(qsbr_rmw,
+                                   &orphaned_current_interval_dealloc_requests);
           if (UNODB_DETAIL_LIKELY(
                   orphaned_current_interval_dealloc_requests
                       .compare_exchange_weak(list->next, list,
